@@ -2,10 +2,25 @@
 
 package main
 
+import cm "zombiezen.com/go/commonmark"
+
 // inputClasses are the decidable input classes that known_findings.jsonl may refer to.
 // A class must be narrow: it describes the inputs reaching one root cause, never a property.
 var inputClasses = map[string]func(input []byte) bool{
 	"atx-backslash-before-trailing-space": atxBackslashBeforeTrailingSpace,
+	"setext-heading-root-after-definition": setextRootAfterDefinition,
+}
+
+// setextRootAfterDefinition: some root is a setext heading that starts exactly where a preceding
+// reference-definition root ends (the remainder of a paragraph split by onCloseParagraph).
+func setextRootAfterDefinition(doc []byte) bool {
+	res := parseMem(doc)
+	for i := 1; i < len(res.roots); i++ {
+		if res.roots[i].Kind() == cm.SetextHeadingKind && res.roots[i-1].Kind() == cm.LinkReferenceDefinitionKind && res.roots[i-1].EndOffset == res.roots[i].StartOffset {
+			return true
+		}
+	}
+	return false
 }
 
 // atxBackslashBeforeTrailingSpace: the line starts with '#', and some space/tab that is preceded by an odd
